@@ -319,6 +319,11 @@ def gen_history(rng, nmax, with_error):
     return ops
 
 
+def qtag(q):
+    """root-cause tag of an oracle quantity (attribute name / clause) used to report each cause once"""
+    return q.split(" equals")[0].split(" of Lattice(base")[0].split(" (")[0]
+
+
 def kinds_of(ops):
     return "[%s]" % ",".join(o["op"] for o in ops)
 
@@ -367,7 +372,8 @@ def ctor_forms(ck, disagreements):
                     bad.append(("baserot of the constructed lattice", want, impl_attrs(L)["baserot"]))
             if bad:
                 fail_once(ck, "ctor:%d" % mask, "Lattice(%s): %s: expected %r observed %r" % (", ".join(sorted(kw)), bad[0][0], bad[0][1], bad[0][2]),
-                          {"kind": "ctor", "mask": mask, "a_is_lattice": alat, "quantity": bad[0][0], "expected": bad[0][1], "observed": bad[0][2]})
+                          {"kind": "ctor", "mask": mask, "a_is_lattice": alat, "quantity": bad[0][0], "expected": bad[0][1], "observed": bad[0][2]},
+                          dedupe="ctor:" + qtag(bad[0][0]))
         except Exception as ex:  # noqa: BLE001
             got = "err " + type(ex).__name__
         if got != o:
@@ -436,7 +442,8 @@ def run(ck):
                         small, r = ops[: s + 1], (s,) + tuple(bad[0])
                     fail_once(ck, "history:%s:%s" % (kinds_of(small), r[1].split(" equals")[0].split(" (")[0]),
                               "after the history %s: %s: expected %r, observed %r" % (kinds_of(small), r[1], r[2], r[3]),
-                              {"kind": "history", "history": small, "step": r[0], "quantity": r[1], "expected": r[2], "observed": r[3]})
+                              {"kind": "history", "history": small, "step": r[0], "quantity": r[1], "expected": r[2], "observed": r[3]},
+                              dedupe="history:" + qtag(r[1]))
                     failed = True
                     break
                 # model vs implementation
